@@ -295,6 +295,8 @@ pub fn judge_sfp(rep: &mut Reporter, t: &mut LinTally, c: &SfpCase, family: &str
         4 => sfp_n::<4>(c),
         5 => sfp_n::<5>(c),
         6 => sfp_n::<6>(c),
+        7 => sfp_n::<7>(c),
+        8 => sfp_n::<8>(c),
         _ => unreachable!(),
     });
     let s: Vec<u8> = (0..n as u8).collect();
